@@ -317,6 +317,12 @@ def write_evidence(prop, tier, level, coverage, wall, violations, assumptions=()
     with open(os.path.join(EVIDENCE, prop + ".json"), "w") as f:
         json.dump(ev, f, indent=1, default=str)
         f.write("\n")
+    if tier == "thorough" and "VERIF_REPO" not in os.environ:
+        # kept next to the quick-tier evidence (which is what a fresh run of the registered quick command rewrites)
+        os.makedirs(os.path.join(VERIF, "evidence-thorough"), exist_ok=True)
+        with open(os.path.join(VERIF, "evidence-thorough", prop + ".json"), "w") as f:
+            json.dump(ev, f, indent=1, default=str)
+            f.write("\n")
 
 
 def main_wrapper(prop, fn):
